@@ -362,6 +362,7 @@ type walker struct {
 	nodes int
 	toks  int
 	index map[ast.Vertex]int
+	list  []ast.Vertex // with index: the vertices in pre-order
 	depth int
 }
 
@@ -402,6 +403,7 @@ func (w *walker) walk(v reflect.Value) {
 				if vx, ok := v.Interface().(ast.Vertex); ok {
 					if _, seen := w.index[vx]; !seen {
 						w.index[vx] = len(w.index)
+						w.list = append(w.list, vx)
 					}
 				}
 			}
@@ -478,6 +480,16 @@ func fingerprint(root ast.Vertex, src []byte) string {
 	}
 	w.str(string(src))
 	return strconv.FormatUint(w.h, 16) + "/" + strconv.Itoa(w.nodes)
+}
+
+// vertices lists the vertices reachable from root (root first) in pre-order.
+func vertices(root ast.Vertex) []ast.Vertex {
+	if root == nil {
+		return nil
+	}
+	w := &walker{h: 0xcbf29ce484222325, index: map[ast.Vertex]int{}}
+	w.walk(reflect.ValueOf(root))
+	return w.list
 }
 
 // countTokens counts the token objects reachable from a tree.
